@@ -196,6 +196,9 @@ def check_nca_point(ml, ds, lname, L, sign):
   est.n_iter_ = 0
   mask = y[:, np.newaxis] == y[np.newaxis, :]
   inp = jsonable(learner='NCA', X=X, y=y, L=L, sign=sign)
+  if not hasattr(est, '_loss_grad_lbfgs'):
+    return None        # the function that drives the optimiser is no longer reachable under its known (private) name: this clause is then
+                       # observed only through the fit-level cases (value / gradient handed to scipy.optimize.minimize)
   try:
     loss, grad = est._loss_grad_lbfgs(L.ravel().copy(), X, mask, sign)
   except Exception as e:
@@ -222,6 +225,8 @@ def check_mlkr_point(ml, ds, lname, L):
   est = ml.MLKR()
   est.n_iter_ = 0
   inp = jsonable(learner='MLKR', X=X, y=y, L=L)
+  if not hasattr(est, '_loss'):
+    return None        # (as for NCA: private name not found -> point-wise clause not evaluated)
   try:
     cost, grad = est._loss(L.ravel().copy(), X, y)
   except Exception as e:
@@ -273,6 +278,8 @@ def lmnn_context(ml, ds):
 def check_lmnn_point(ml, ds, lname, L):
   X, y, k, reg = ds['X'], ds['y'], ds['k'], ds['reg']
   inp = jsonable(learner='LMNN', X=X, y=y, L=L, n_neighbors=k, regularization=reg)
+  if not hasattr(ml.LMNN, '_loss_grad'):
+    return None        # (private name not found -> point-wise clause not evaluated)
   try:
     est, (Xc, dfG, kc, regc, tn, label_inds), T, ambiguous = lmnn_context(ml, ds)
     if ambiguous:
